@@ -291,8 +291,11 @@ CLAIMED = {
         'synchronize() flushes differing pages in ascending order) - the fresh reader finds exactly the message; the '
         'real Type2TagMemoryReader (__getitem__, __setitem__ for index and slice, synchronize) is proved to refine '
         'that image against a page-wise ghost tag (representation invariant, every intermediate tag state has the '
-        'shape cache[0:4j] + old[4j:], only differing pages are written). Type 1, and Type 2 with reserved ranges '
-        'inside the message area (TLV walk with skip bytes) are '
+        'shape cache[0:4j] + old[4j:], only differing pages are written). Type 1 write path likewise for layouts whose '
+        'reserved range lies outside the message area or covers its tail (the static 120 octet layout), with the '
+        'Type 1 memory reader\'s synchronize() proved for block-wise and byte-wise writing. Type 1 dynamic memory '
+        '(reserved octets 104..127 inside the area) and Type 2 with reserved ranges inside the message area (TLV walk '
+        'with skip bytes) are '
         'bounded stand-ins (real code under CPython on 23/44 fixed layouts x boundary lengths, independent TLV reader); '
         'the control-TLV helpers get_lock_byte_range/get_rsvd_byte_range of both tag types are proved against the '
         'independent reading for every TLV value '
@@ -323,7 +326,8 @@ CLAIMED = {
         'memory); Type 4 format(wipe) stays inside the file and leaves an empty message. Type 2 (reserved ranges '
         'outside the message area): after every prefix of every synchronize() nothing before the NDEF length field and '
         'nothing behind the data area differs from before (interface obligation of the abstract image at each of the '
-        'three flushes). Type 1, and Type 2 with reserved ranges inside the area, are bounded stand-ins and not counted.',
+        'three flushes); Type 1 likewise for the static-layout class. Type 1 dynamic memory and Type 2 with reserved '
+        'ranges inside the area are bounded stand-ins and not counted.',
    design_ref='DESIGN.md Part A sections A.4 (this property), A.8',
    note='Same environment models as C01. Type 3 format() (tt3_sony FelicaLite) and Type 1/2 _format are not covered.',
    technique='contract-based deductive verification: frame conditions on ghost tag memory (pyvc)'),
